@@ -69,7 +69,7 @@ Proof.
       destruct wit_method as [m|] eqn:Em; [|vm_compute in Em; discriminate].
       apply find_some in Em. destruct Em as [Hin Hex].
       destruct (find path_writes_param (m_paths m)) as [p|] eqn:Ep.
-      - apply find_some in Ep. exists m. split; [exact Hin|apply Ep].
+      - apply find_some in Ep. exists m. split; [exact Hin|left; apply Ep].
       - exfalso. apply existsb_exists in Hex. destruct Hex as [p [Hp Hw]].
         pose proof (find_none _ _ Ep p Hp) as F. congruence. }
     repeat constructor; exact Hp.
